@@ -12,7 +12,7 @@ Stage R  the same TLC runs emit rows of received samples on a rational grid (QAM
          specification).  Expected index = the label the RECORDED table of the real object gives
          that point (recorded at construction and after every setPhaseOffset; the tables are
          validated by TLC in stage T); compared exactly with demodulate().
-Stage T  recorded histories of real objects (construct - modulate index arrays of 8 shapes incl.
+Stage T  recorded histories of real objects (construct - modulate index arrays of 19 shape/memory-layout combinations (0-d .. 4-d; C, Fortran, transposed, strided, reversed) incl.
          indexes >= M - demodulate(modulate(.)) - demodulate noisy python-chosen samples -
          setPhaseOffset - ... ) and the constructor outcome for every cardinality 0..1100 are judged
          by Trace_Constellation.tla."""
@@ -89,8 +89,15 @@ class Live:
         self.tb = cc.Table("PSK", self.M, self.obj.symbols, ph)
 
 
-def check_rows(ctx, live, rows, label):
-    """rows: emitted demod cases of live's (kind, M).  Returns number of violating samples."""
+BLOCKS = [((4, 6), "F"), ((6, 4), "T"), ((2, 3, 4), "F"), ((4, 3, 2), "T"), ((8, 3), "strided"), ((3, 8), "lastaxis"),
+          ((24,), "reversed"), ((2, 12), "reversed"), ((24,), "strided"), ((1, 24), "T")]
+_rot = [0]
+
+
+def check_rows(ctx, live, rows, label, present=None):
+    """rows: emitted demod cases of live's (kind, M).  Every sample is demodulated twice: in long 1-d
+    chunks, and in blocks of 24 handed over as 2-d / 3-d arrays in non-contiguous memory layouts
+    (Fortran order, transposed view, strided, reversed); both compared position by position."""
     tb = live.tb
     if not tb.tabok or len(tb.lookup) != live.M:
         return 0        # stage T reports the broken table; nothing can be looked up
@@ -98,32 +105,61 @@ def check_rows(ctx, live, rows, label):
     b = np.concatenate([np.asarray(r["b"], dtype=np.int64) for r in rows])
     d = rows[0]["d"]
     near = [c for r in rows for c in r["near"]]
-    if tb.kind == "PSK":
-        keep = np.array([c != -1 for c in near])
-        exp = np.array([tb.lookup[c] for c in near if c != -1], dtype=np.int64)
-    else:
-        keep = np.array([c != [0, 0] for c in near])
-        exp = np.array([tb.lookup[tuple(c)] for c in near if c != [0, 0]], dtype=np.int64)
+    tie = -1 if tb.kind == "PSK" else [0, 0]
+    keep = np.array([c != tie for c in near], dtype=bool)
+    near = [c for c in near if c != tie]
+    exp = np.array([tb.lookup[c if tb.kind == "PSK" else tuple(c)] for c in near], dtype=np.int64)
     a, b = a[keep], b[keep]
-    z = tb.sample(a, b, d)
-    try:
-        got = cc.demod_chunked(live.obj, z)
-    except Exception as ex:
-        ctx.violation(f"{label}: demodulate raised {type(ex).__name__}: {ex}",
-                      {"stage": "R", "kind": live.kind, "M": live.M, "phases": live.phases[:live.step + 1], "d": d,
-                       "a": int(a[0]), "b": int(b[0]), "near": near[0], "exp": int(exp[0])})
-        return 1
-    wrong = np.nonzero(got != exp)[0]
-    for i in wrong[:3]:
-        nc = [c for c, k in zip(near, keep) if k][int(i)]
-        ctx.violation(f"{label}: demodulate(sample {int(a[i])},{int(b[i])} /{d}) = {int(got[i])}, nearest point {nc} carries label {int(exp[i])} "
-                      f"({len(wrong)} of {len(exp)} samples of this table wrong)",
-                      {"stage": "R", "kind": live.kind, "M": live.M, "phases": live.phases[:live.step + 1], "d": d,
-                       "a": int(a[i]), "b": int(b[i]), "near": nc, "exp": int(exp[i]), "got": int(got[i])})
-    ctx.ok(n=int(len(exp) - len(wrong)))
-    for i in range(0, len(exp), max(1, len(exp) // 200)):        # a bounded number of identifying keys
-        ctx.distinct.add((live.kind, live.M, live.step, d, int(a[i]), int(b[i])))
-    return len(wrong)
+    z = np.asarray(tb.sample(a, b, d), dtype=complex)
+    base = {"stage": "R", "kind": live.kind, "M": live.M, "phases": live.phases[:live.step + 1], "d": d}
+    nbad = 0
+
+    def report(idxs, got, how):
+        i = int(idxs[0])
+        ctx.violation(f"{label}: demodulate(sample {int(a[i])},{int(b[i])} /{d}){how} = {int(got)}, nearest point {near[i]} carries label {int(exp[i])} "
+                      f"({len(idxs)} positions wrong)", dict(base, a=[int(a[i])], b=[int(b[i])], near=[near[i]], present=None))
+
+    if present is None:
+        try:
+            got = cc.demod_chunked(live.obj, z)
+        except Exception as ex:
+            ctx.violation(f"{label}: demodulate raised {type(ex).__name__}: {ex}", dict(base, a=[int(v) for v in a[:24]], b=[int(v) for v in b[:24]],
+                                                                                      near=near[:24], present=None))
+            return 1
+        wrong = np.nonzero(got != exp)[0]
+        if len(wrong):
+            report(wrong, got[wrong[0]], "")
+        ctx.ok(n=int(len(exp) - len(wrong)))
+        nbad += len(wrong)
+        for i in range(0, len(exp), max(1, len(exp) // 200)):        # a bounded number of identifying keys
+            ctx.distinct.add((live.kind, live.M, live.step, d, int(a[i]), int(b[i])))
+    # blocks of 24 samples as non-contiguous multi-dimensional arrays
+    nblk = len(z) // 24
+    reported = False
+    for k in range(nblk if present is None else 1):
+        shp, lay = BLOCKS[(_rot[0] + k) % len(BLOCKS)] if present is None else (tuple(present[0]), present[1])
+        sl = slice(24 * k, 24 * k + int(np.prod(shp)))
+        arr = cc.as_layout(z[sl].reshape(shp), lay, fill=7 + 7j)
+        case = dict(base, a=[int(v) for v in a[sl]], b=[int(v) for v in b[sl]], near=near[sl], present=[list(shp), lay])
+        try:
+            out = np.asarray(live.obj.demodulate(arr))
+        except Exception as ex:
+            ctx.violation(f"{label}: demodulate of a {lay} array of shape {shp} raised {type(ex).__name__}: {ex}", case)
+            return nbad + 1
+        g = out.reshape(-1) if out.shape == tuple(shp) else None
+        w = np.nonzero(g != exp[sl])[0] if g is not None else np.arange(len(exp[sl]))
+        if len(w):
+            nbad += len(w)
+            if not reported:
+                reported = True
+                j = int(w[0])
+                ctx.violation(f"{label}: demodulate of a {lay}-layout array of shape {shp}: position {j} (sample {case['a'][j]},{case['b'][j]} /{d}) = "
+                              f"{'shape ' + str(out.shape) if g is None else int(g[j])}, nearest point {case['near'][j]} carries label {int(exp[sl][j])} "
+                              f"({len(w)} of {len(exp[sl])} positions of the block wrong)", case)
+        else:
+            ctx.ok(n=len(exp[sl]))
+    _rot[0] += nblk
+    return nbad
 
 
 def replay_rows(ctx, emitted):
@@ -218,5 +254,8 @@ def replay(ctx, data):
     live = Live(c["kind"], c["M"], c["phases"])
     while live.step + 1 < len(live.phases):
         live.advance()
-    row = {"a": [c["a"]], "b": [c["b"]], "d": c["d"], "near": [c["near"]]}
-    check_rows(ctx, live, [row], "replay")
+    a = c["a"] if isinstance(c["a"], list) else [c["a"]]
+    b = c["b"] if isinstance(c["b"], list) else [c["b"]]
+    near = c["near"] if isinstance(c["a"], list) else [c["near"]]
+    row = {"a": a, "b": b, "d": c["d"], "near": near}
+    check_rows(ctx, live, [row], "replay", present=c.get("present"))
